@@ -6,6 +6,7 @@
 package grpc
 
 import (
+	"context"
 	"crypto/ecdsa"
 	"crypto/elliptic"
 	"crypto/rand"
@@ -13,6 +14,8 @@ import (
 	"crypto/x509"
 	"crypto/x509/pkix"
 	"encoding/json"
+	"encoding/pem"
+	"net/url"
 	"fmt"
 	"math/big"
 	"net"
@@ -27,8 +30,57 @@ import (
 	"github.com/nuts-foundation/nuts-node/pki"
 	"go.uber.org/mock/gomock"
 	"google.golang.org/grpc/credentials"
+	grpcLib "google.golang.org/grpc"
+	"google.golang.org/grpc/metadata"
 	grpcPeer "google.golang.org/grpc/peer"
 )
+
+type vStream struct {
+	grpcLib.ServerStream
+	ctx context.Context
+}
+
+func (s *vStream) Context() context.Context { return s.ctx }
+
+// TLS offloading: the client certificate comes from a header set by the TLS terminator. The REAL interceptor is run with
+// 0 / 1 / 2+ header values (a proxy that APPENDS its header after an attacker-supplied one yields two values, hostile first)
+func vOffloading(t *testing.T, ops, impl *os.File, validator pki.Validator) {
+	mk := func(cn string, dns []string) string {
+		c, _, _ := vMkCert(t, cn, dns, false, nil, nil)
+		return url.QueryEscape(string(pem.EncodeToMemory(&pem.Block{Type: "CERTIFICATE", Bytes: c.Raw})))
+	}
+	vals := map[string]string{"victim": mk("victim", []string{"victim.example.org"}), "proxy": mk("attacker", []string{"attacker.example"}), "garbage": "!!!not a certificate"}
+	unescapedTwo, _ := url.QueryUnescape(vals["victim"])
+	unescapedTwo2, _ := url.QueryUnescape(vals["proxy"])
+	vals["two-in-one"] = url.QueryEscape(unescapedTwo + unescapedTwo2)
+	cases := [][]string{{}, {"victim"}, {"proxy"}, {"garbage"}, {"two-in-one"}, {"victim", "proxy"}, {"proxy", "victim"}, {"victim", "victim"}, {"victim", "proxy", "proxy"}, {"garbage", "proxy"}}
+	icpt := newAuthenticationInterceptor("x-ssl-client-cert", validator)
+	for _, c := range cases {
+		md := metadata.MD{}
+		for _, k := range c {
+			md.Append("x-ssl-client-cert", vals[k])
+		}
+		ctx := metadata.NewIncomingContext(context.Background(), md)
+		got := "-"
+		err := icpt(nil, &vStream{ctx: ctx}, nil, func(_ interface{}, stream grpcLib.ServerStream) error {
+			p, _ := grpcPeer.FromContext(stream.Context())
+			if p != nil {
+				if cert := extractCertificate(p); cert != nil && len(cert.DNSNames) > 0 {
+					got = cert.DNSNames[0]
+				}
+			}
+			return nil
+		})
+		op, _ := json.Marshal(map[string]interface{}{"op": "offload", "values": c})
+		fmt.Fprintln(ops, string(op))
+		if err != nil {
+			fmt.Fprintln(impl, "offload refused")
+		} else {
+			fmt.Fprintf(impl, "offload cert=%s\n", got)
+		}
+	}
+}
+
 
 type vSvc struct{ endpoint string }
 
@@ -124,6 +176,8 @@ func TestVerifC15ServerTLS(t *testing.T) {
 		cfg.VerifyPeerCertificate = func(_ [][]byte, _ [][]*x509.Certificate) error { return nil }
 		return nil
 	})
+	validator.EXPECT().Validate(gomock.Any()).AnyTimes().Return(nil)
+	vOffloading(t, ops, impl, validator)
 	serverCfg, err := newServerTLSConfig(Config{serverCert: &serverCert, trustStore: pool, pkiValidator: validator})
 	if err != nil {
 		t.Fatal(err)
